@@ -119,6 +119,16 @@ theorem single_substitution_refused (pre post : List Char) (c c' : Char) (cs : L
 
 example : ∃ e, stripChecksum "raw(deadbeee)#89f8spxm".toList = .error e := ⟨.mismatch, by decide +kernel⟩
 
+/-- T1c, the checksum half: ANY change of the eight characters after the `#` (one character or more, any
+    characters) is refused — they are compared as text with `checksum(body)`. -/
+theorem checksum_corruption_refused (body cs cs' : List Char) (hb : '#' ∉ body) (h : checksum body = some cs)
+    (hne : cs' ≠ cs) : ∃ e, stripChecksum (body ++ '#' :: cs') = .error e := by
+  by_cases hc : '#' ∈ cs'
+  · exact ⟨.twoSeparators, by simp [stripChecksum, partition_append body cs' hb, hc]⟩
+  · exact ⟨.mismatch, by simp [stripChecksum, partition_append body cs' hb, hc, h, hne]⟩
+
+example : ∃ e, stripChecksum "raw(deadbeef)#89f8spxn".toList = .error e := ⟨.mismatch, by decide +kernel⟩
+
 /-- T1d: a descriptor string holding any character outside `INPUT_CHARSET` — in the body or after the
     `#` — is refused, with or without a checksum. -/
 theorem outside_charset_refused (d : List Char) (x : Char) (hx : x ∈ d) (hbad : x ∉ INPUT_CHARSET) :
@@ -287,10 +297,10 @@ theorem parser_tables_as_modelled :
       ("_parse_multi", "False", "_no_uncompressed(context)", "False"), ("_parse_tr", "True", "True", "True"),
       ("_parse_rawtr", "True", "True", "True"), ("_parse_multi_a", "True", "True", "True"),
       ("_parse_tree", "True", "True", "True")] ∧
-    MAX_TREE_DEPTH = 128 ∧ HARDENED_OFFSET = 2 ^ 31 ∧ MAX_PATH_STEPS = 255 ∧ INDEX_BOUND = 2 ^ 31 ∧
+    THRESHOLD_MAX_DIGITS = 10 ∧ INT_MAX_STR_DIGITS = 4300 ∧ MAX_TREE_DEPTH = 128 ∧ HARDENED_OFFSET = 2 ^ 31 ∧ MAX_PATH_STEPS = 255 ∧ INDEX_BOUND = 2 ^ 31 ∧
     BIP380_HARDENINGS = ['\'', 'h'] ∧ HARDENING = 'h' ∧ WILDCARDS = ["*", "*'", "*h"] := by
   refine ⟨by decide, by decide, by decide, by decide, by decide, by decide, by decide, by decide, by decide,
-    by decide, by decide, by decide⟩
+    by decide, by decide, by decide, by decide, by decide⟩
 
 /-- T2 (miniscript bodies, C15's AST inside this grammar): a sane, satisfiable P2WSH miniscript over
     raw compressed keys that are points, whose text does not begin with a descriptor function name, is
@@ -298,8 +308,8 @@ theorem parser_tables_as_modelled :
     (The reading of the miniscript text itself is C15's theorem `parseSyntax_toText`.)  `musig()` keys and
     miniscripts over extended keys stay outside the model. -/
 theorem parse_miniscript_of_text (o : KeyOracle) (fuel : Nat) (n : Miniscript.Ms)
-    (hs : Miniscript.shaped .p2wsh n = true) (ht : Miniscript.allTyped .p2wsh n = true)
-    (hB : (Miniscript.typeOf .p2wsh n).B = true)
+    (hs : Miniscript.shaped .p2wsh n = true) (hn : Miniscript.numsOK n = true)
+    (ht : Miniscript.allTyped .p2wsh n = true) (hB : (Miniscript.typeOf .p2wsh n).B = true)
     (hsane : (Miniscript.isSane .p2wsh n && (Miniscript.maxStackItems .p2wsh n).isSome) = true)
     (hk : ∀ k ∈ Miniscript.keysOf n, k.length = 33 ∧ (k.head? = some 2 ∨ k.head? = some 3) ∧ o.validPub k = true)
     (hname : fnOf ((Miniscript.toText n).takeWhile (· != '(')) = none ∧
@@ -307,7 +317,7 @@ theorem parse_miniscript_of_text (o : KeyOracle) (fuel : Nat) (n : Miniscript.Ms
       isTreeFn ((Miniscript.toText n).takeWhile (· != '(')) = false) :
     parseExpr o (fuel + 1) .wsh (strD (.ms n)) = .ok (.ms n) := by
   have hp : Miniscript.parse .p2wsh (Miniscript.toText n) = some n := by
-    simp [Miniscript.parse, Miniscript.parseSyntax_toText .p2wsh n hs, hs, ht, hB]
+    simp [Miniscript.parse, Miniscript.parseSyntax_toText .p2wsh n hs hn, hs, ht, hB]
   have hall : ((Miniscript.keysOf n).all fun k =>
       k.length == 33 && (k.head? == some 2 || k.head? == some 3) && o.validPub k) = true := by
     rw [List.all_eq_true]
@@ -354,6 +364,12 @@ theorem tr_leaf_must_close (o : KeyOracle) (fuel depth : Nat) (e : List Char) (h
   parseTree_unclosed o fuel depth e h1 h2 h3
 
 example : parseTree exampleOracle 9 0 "pk(xA}".toList = .error .value := by decide +kernel
+
+/-- a threshold of more than `THRESHOLD_MAX_DIGITS` (ten) digits is refused by every `multi*` reader (so no
+    digit run reaches `int()`'s own 4300-digit limit); T2 below is stated for thresholds below 10^10. -/
+theorem long_threshold_refused (o : KeyOracle) (x c m : Bool) (t k : List Char) (ks : List (List Char))
+    (h : t.length > THRESHOLD_MAX_DIGITS) : parseMultiArgs o x c m (t :: k :: ks) = .error .value := by
+  simp [parseMultiArgs, parseThreshold, h]
 
 /-- T2 (trees): `_parse_tree(_tree_expression(t)) == t` for every tree of `pk()`, `multi_a()`,
     `sortedmulti_a()` leaves no deeper than `MAX_TREE_DEPTH`. -/
@@ -489,7 +505,7 @@ theorem at_index_commutes (net : String) (prv : PrvKeys) (d d' : D) (i : Nat) (h
 /-- `tr(KEY)` / `tr(KEY,TREE)`: the output key is C12's `tweakedPubkey` of the derived internal key with the
     merkle root of the derived tree (the empty string when there is no tree). -/
 theorem tr_output_is_taproot_tweak (net : String) (prv : PrvKeys) (i : Nat) (k : Key) (t : Tree)
-    (sec : Bytes) (tt : Taproot.Tree) (hk : Key.sec E net prv k i = some sec)
+    (sec : Bytes) (tt : Taproot.Tree) (hk : Key.sec E net prv k i = some sec) (hne : sec ≠ [])
     (ht : tapTree E net prv i t = some tt) :
     scripts E net prv i (.tr k none) =
       (match Taproot.tweakedPubkey E.bip.o E.tag sec [] with
@@ -497,58 +513,161 @@ theorem tr_output_is_taproot_tweak (net : String) (prv : PrvKeys) (i : Nat) (k :
     scripts E net prv i (.tr k (some t)) =
       (match Taproot.tweakedPubkey E.bip.o E.tag sec (Taproot.root E.tag tt) with
         | .ok (q, _) => some [0x51 :: push q] | .error _ => none) := by
-  constructor
-  · simp only [scripts, hk, Option.bind_some, p2tr, Taproot.outputPubkey, Taproot.outputPubkeyAndInternalKey,
-      Option.getD_some]
-    cases Taproot.tweakedPubkey E.bip.o E.tag sec [] with
-    | error e => rfl
-    | ok r => rfl
-  · simp only [scripts, hk, ht, p2tr, Taproot.outputPubkey, Taproot.outputPubkeyAndInternalKey, Option.getD_some]
-    cases Taproot.tweakedPubkey E.bip.o E.tag sec (Taproot.root E.tag tt) with
-    | error e => rfl
-    | ok r => rfl
+  cases sec with
+  | nil => exact absurd rfl hne
+  | cons b bs =>
+    constructor
+    · simp only [scripts, hk, Option.bind_some, p2tr, Taproot.outputPubkey, Taproot.outputPubkeyAndInternalKey,
+        Taproot.truthyKey, Option.getD_some]
+      cases Taproot.tweakedPubkey E.bip.o E.tag (b :: bs) [] with
+      | error e => rfl
+      | ok r => rfl
+    · simp only [scripts, hk, ht, p2tr, Taproot.outputPubkey, Taproot.outputPubkeyAndInternalKey, Taproot.truthyKey,
+        Option.getD_some]
+      cases Taproot.tweakedPubkey E.bip.o E.tag (b :: bs) (Taproot.root E.tag tt) with
+      | error e => rfl
+      | ok r => rfl
 
-/-- the wallets' `position_of` is the find-first scan over their own derivation, so: a script the wallet
-    derives at `(b, i)` within the searched range is answered `(b, i)` whenever the scripts in range
-    are pairwise distinct (T5 instantiated at `BIP32KeyWallet` / `ScriptWallet` derivation). -/
-theorem wallet_position_of_own (spk : Nat → Nat → Option Bytes) (branches : List Nat) (last b i : Nat) (s : Bytes)
-    (hb : b ∈ branches) (hi : i ≤ last) (hs : spk b i = some s)
-    (hd : ∀ b₁ ∈ branches, ∀ b₂ ∈ branches, ∀ i₁ i₂, i₁ ≤ last → i₂ ≤ last → spk b₁ i₁ = spk b₂ i₂ → b₁ = b₂ ∧ i₁ = i₂) :
-    walletPositionOf spk branches s last = some (b, i) := by
+/-! ### `position_of` with the raise mirrored
+
+`walletPositionOf` / `descWalletPositionOf` are `Scan.scanE` over the wallet's own derivation: outer `none`
+is the BTClibValueError btclib raises when the scan reaches a position it cannot derive (index past 65535
+of an account wallet, a hardened step without the private key) BEFORE any match. -/
+
+/-- find-first, all three wallet scans: the answer is `(b, i)` iff `(b, i)` is the lexicographically first
+    match in `branches × [0 … lastOf b]` AND every position scanned before it derives (and is no match). -/
+theorem scan_find_first_iff {β : Type} (hit : β → Nat → Option Bool) (lastOf : β → Nat) (branches : List β)
+    (b : β) (i : Nat) :
+    Scan.scanE hit lastOf branches = some (some (b, i)) ↔
+      ∃ pre post, branches = pre ++ b :: post ∧ Scan.AllMiss hit lastOf pre ∧
+        i ≤ lastOf b ∧ hit b i = some true ∧ ∀ j, j < i → hit b j = some false :=
+  Scan.scanE_hit_iff hit lastOf branches b i
+
+/-- "not mine" iff every searched position derives and none matches. -/
+theorem scan_not_mine_iff {β : Type} (hit : β → Nat → Option Bool) (lastOf : β → Nat) (branches : List β) :
+    Scan.scanE hit lastOf branches = some none ↔ Scan.AllMiss hit lastOf branches :=
+  Scan.scanE_none_iff hit lastOf branches
+
+/-- the scan raises iff the first position that is not a derivable miss cannot be derived. -/
+theorem scan_raises_iff {β : Type} (hit : β → Nat → Option Bool) (lastOf : β → Nat) (branches : List β) :
+    Scan.scanE hit lastOf branches = none ↔
+      ∃ pre b post i, branches = pre ++ b :: post ∧ Scan.AllMiss hit lastOf pre ∧
+        i ≤ lastOf b ∧ hit b i = none ∧ ∀ j, j < i → hit b j = some false :=
+  Scan.scanE_raise_iff hit lastOf branches
+
+/-- `RangedWallet.position_of` (BIP32 key wallet, script-template wallet): a script the wallet derives at
+    `(b, i)` is answered `(b, i)` when every position scanned before it derives a DIFFERENT script.  Nothing is
+    asked of positions after `(b, i)`: they may be underivable (`last_index` past 65535). -/
+theorem wallet_position_of_own (spk : Nat → Nat → Option Bytes) (pre post : List Nat) (last b i : Nat) (s : Bytes)
+    (hi : i ≤ last) (hs : spk b i = some s)
+    (hpre : ∀ b' ∈ pre, ∀ j, j ≤ last → ∃ t, spk b' j = some t ∧ t ≠ s)
+    (hbefore : ∀ j, j < i → ∃ t, spk b j = some t ∧ t ≠ s) :
+    walletPositionOf spk (pre ++ b :: post) s last = some (some (b, i)) := by
   unfold walletPositionOf
-  rw [← hs]
-  exact position_of_own_exact spk last branches b i hb hi hd
+  rw [Scan.scanE_hit_iff]
+  refine ⟨pre, post, rfl, ?_, hi, by simp [hs], ?_⟩
+  · intro b' hb' j hj
+    obtain ⟨t, ht, hne⟩ := hpre b' hb' j hj
+    simp [ht, hne]
+  · intro j hj
+    obtain ⟨t, ht, hne⟩ := hbefore j hj
+    simp [ht, hne]
 
-/-- instances: the BIP32 key wallet and the script-template wallet. -/
+/-- the same under "scripts in range are pairwise distinct" (asked only of positions that derive, so it is
+    satisfiable whatever `last` is): every position before `(b, i)` derives, no branch is listed twice before
+    `b`, and two derivable positions in range never share a script. -/
+theorem wallet_position_of_own_distinct (spk : Nat → Nat → Option Bytes) (pre post : List Nat) (last b i : Nat)
+    (s : Bytes) (hi : i ≤ last) (hs : spk b i = some s) (hb : b ∉ pre)
+    (hder : (∀ b' ∈ pre, ∀ j, j ≤ last → (spk b' j).isSome = true) ∧ ∀ j, j < i → (spk b j).isSome = true)
+    (hd : ∀ b₁ ∈ pre ++ b :: post, ∀ b₂ ∈ pre ++ b :: post, ∀ i₁ i₂ t, i₁ ≤ last → i₂ ≤ last →
+      spk b₁ i₁ = some t → spk b₂ i₂ = some t → b₁ = b₂ ∧ i₁ = i₂) :
+    walletPositionOf spk (pre ++ b :: post) s last = some (some (b, i)) := by
+  have hbm : b ∈ pre ++ b :: post := by simp
+  apply wallet_position_of_own spk pre post last b i s hi hs
+  · intro b' hb' j hj
+    have := hder.1 b' hb' j hj
+    cases ht : spk b' j with
+    | none => rw [ht] at this; cases this
+    | some t =>
+      refine ⟨t, rfl, ?_⟩
+      rintro rfl
+      have := hd b' (List.mem_append_left _ hb') b hbm j i t hj hi ht hs
+      exact hb (this.1 ▸ hb')
+  · intro j hj
+    have := hder.2 j hj
+    cases ht : spk b j with
+    | none => rw [ht] at this; cases this
+    | some t =>
+      refine ⟨t, rfl, ?_⟩
+      rintro rfl
+      have := hd b hbm b hbm j i t (by omega) hi ht hs
+      omega
+
+/-- the hypotheses are satisfiable with `last` far past what the wallet can derive, and the raise is what
+    btclib does (`BIP32KeyWallet.position_of(script_pub_key(1, 0), last_index=0x10000)`): a wallet that derives
+    three indexes per branch, searched to 100. -/
+example :
+    let spk : Nat → Nat → Option Bytes := fun b i => if i < 3 then some [UInt8.ofNat b, UInt8.ofNat i] else none
+    walletPositionOf spk [0, 1] [0, 1] 100 = some (some (0, 1)) ∧       -- found before the scan leaves the range
+    walletPositionOf spk [0, 1] [1, 0] 100 = none ∧                     -- branch 0 runs into index 3 first: raise
+    walletPositionOf spk [0, 1] [1, 0] 2 = some (some (1, 0)) ∧
+    walletPositionOf spk [0, 1] [7, 7] 2 = some none := by
+  decide
+
+/-- instances: the BIP32 key wallet and the script-template wallet (branches 0 and 1). -/
 theorem bip32_wallet_position_of_own (t : KeyScriptType) (acct : Bip32.XKey) (last b i : Nat) (s : Bytes)
-    (hb : b ∈ [0, 1]) (hi : i ≤ last) (hs : bip32WalletSpk E t acct b i = some s)
-    (hd : ∀ b₁ ∈ [0, 1], ∀ b₂ ∈ [0, 1], ∀ i₁ i₂, i₁ ≤ last → i₂ ≤ last →
-      bip32WalletSpk E t acct b₁ i₁ = bip32WalletSpk E t acct b₂ i₂ → b₁ = b₂ ∧ i₁ = i₂) :
-    walletPositionOf (bip32WalletSpk E t acct) [0, 1] s last = some (b, i) :=
-  wallet_position_of_own _ _ last b i s hb hi hs hd
+    (pre post : List Nat) (hbr : [0, 1] = pre ++ b :: post) (hi : i ≤ last)
+    (hs : bip32WalletSpk E t acct b i = some s)
+    (hpre : ∀ b' ∈ pre, ∀ j, j ≤ last → ∃ u, bip32WalletSpk E t acct b' j = some u ∧ u ≠ s)
+    (hbefore : ∀ j, j < i → ∃ u, bip32WalletSpk E t acct b j = some u ∧ u ≠ s) :
+    walletPositionOf (bip32WalletSpk E t acct) [0, 1] s last = some (some (b, i)) := by
+  rw [hbr]; exact wallet_position_of_own _ pre post last b i s hi hs hpre hbefore
 
 theorem script_wallet_position_of_own (t : EmbedType) (order : KeyOrder) (tmpl : List Cmd) (last b i : Nat)
-    (s : Bytes) (hb : b ∈ [0, 1]) (hi : i ≤ last) (hs : scriptWalletSpk E t order tmpl b i = some s)
-    (hd : ∀ b₁ ∈ [0, 1], ∀ b₂ ∈ [0, 1], ∀ i₁ i₂, i₁ ≤ last → i₂ ≤ last →
-      scriptWalletSpk E t order tmpl b₁ i₁ = scriptWalletSpk E t order tmpl b₂ i₂ → b₁ = b₂ ∧ i₁ = i₂) :
-    walletPositionOf (scriptWalletSpk E t order tmpl) [0, 1] s last = some (b, i) :=
-  wallet_position_of_own _ _ last b i s hb hi hs hd
+    (s : Bytes) (pre post : List Nat) (hbr : [0, 1] = pre ++ b :: post) (hi : i ≤ last)
+    (hs : scriptWalletSpk E t order tmpl b i = some s)
+    (hpre : ∀ b' ∈ pre, ∀ j, j ≤ last → ∃ u, scriptWalletSpk E t order tmpl b' j = some u ∧ u ≠ s)
+    (hbefore : ∀ j, j < i → ∃ u, scriptWalletSpk E t order tmpl b j = some u ∧ u ≠ s) :
+    walletPositionOf (scriptWalletSpk E t order tmpl) [0, 1] s last = some (some (b, i)) := by
+  rw [hbr]; exact wallet_position_of_own _ pre post last b i s hi hs hpre hbefore
 
-/-- a descriptor wallet's answer derives the script on the answered chain. -/
-theorem descriptor_wallet_answer_derives (net : String) (prv : PrvKeys) (chains : List D) (s : Bytes) (last b i : Nat)
-    (h : descWalletPositionOf E net prv chains s last = some (b, i)) :
-    ∃ d, chains[b]? = some d ∧ ∃ l, scriptPubKeys E net prv d i = some l ∧ s ∈ l := by
-  unfold descWalletPositionOf at h
-  have := descriptor_wallet_position_derives _ _ s last _ b i h
-  obtain ⟨hb, _, hm⟩ := this
-  cases hc : chains[b]? with
-  | none => simp [hc] at hm
-  | some d =>
-    refine ⟨d, rfl, ?_⟩
-    simp only [hc] at hm
-    cases hl : scriptPubKeys E net prv d i with
-    | none => simp [hl] at hm
-    | some l => exact ⟨l, rfl, by simpa [hl] using hm⟩
+/-- `DescriptorWallet.position_of`, find-first iff: the answer is `(b, i)` iff chain `b` describes the script at
+    `i` within its own searched range (index 0 only when not ranged), does not at any smaller index, every
+    earlier chain derives throughout its range without describing it — and nothing scanned before raised. -/
+theorem descriptor_wallet_position_of_iff (net : String) (prv : PrvKeys) (chains : List D) (s : Bytes)
+    (last b i : Nat) :
+    descWalletPositionOf E net prv chains s last = some (some (b, i)) ↔
+      ∃ pre post, List.range chains.length = pre ++ b :: post ∧
+        Scan.AllMiss (fun (b : Nat) i => match chains[b]? with
+            | some d => (scriptPubKeys E net prv d i).map fun l => decide (s ∈ l)
+            | none => some false)
+          (fun b => match chains[b]? with | some d => (if d.isRanged then last else 0) | none => 0) pre ∧
+        ∃ d, chains[b]? = some d ∧ i ≤ (if d.isRanged then last else 0) ∧
+          (∃ l, scriptPubKeys E net prv d i = some l ∧ s ∈ l) ∧
+          ∀ j, j < i → ∃ l, scriptPubKeys E net prv d j = some l ∧ s ∉ l := by
+  unfold descWalletPositionOf
+  rw [Scan.scanE_hit_iff]
+  constructor
+  · rintro ⟨pre, post, e, hpre, h1, h2, h3⟩
+    refine ⟨pre, post, e, hpre, ?_⟩
+    cases hc : chains[b]? with
+    | none => simp [hc] at h2
+    | some d =>
+      simp only [hc] at h1 h2 h3
+      refine ⟨d, rfl, h1, ?_, ?_⟩
+      · cases hl : scriptPubKeys E net prv d i with
+        | none => simp [hl] at h2
+        | some l => exact ⟨l, rfl, by simpa [hl] using h2⟩
+      · intro j hj
+        have := h3 j hj
+        cases hl : scriptPubKeys E net prv d j with
+        | none => simp [hl] at this
+        | some l => exact ⟨l, rfl, by simpa [hl] using this⟩
+  · rintro ⟨pre, post, e, hpre, d, hc, h1, ⟨l, hl, hm⟩, h3⟩
+    refine ⟨pre, post, e, hpre, by simpa [hc] using h1, by simp [hc, hl, hm], ?_⟩
+    intro j hj
+    obtain ⟨l', hl', hn⟩ := h3 j hj
+    simp [hc, hl', hn]
 
 end T3
 
